@@ -114,7 +114,7 @@ def eval_case(case):
                 if not os.path.islink(cwd_abs):
                     os.symlink(os.path.join(pr.root, "a"), cwd_abs)
             if not os.path.isdir(cwd_abs):
-                out["inconclusive"].append({"why": "cwd missing in this state", "detail": cwd})
+                bump("c17_cwd_not_present_in_this_state")  # e.g. a task output directory after `clean`
                 continue
             pr.events(new_only=True)
             r = cli.run_cli(argv, cwd_abs, pr.scratch, timeout=120, clock=[T0])
